@@ -143,6 +143,7 @@ func (Engine) Shrink(plan interface{}, try func(interface{}) bool) interface{} {
 		// simpler configuration
 		simpler := []func(*Plan) bool{
 			func(p *Plan) bool { ok := p.Cfg.PYields; p.Cfg.PYields = false; return ok },
+			func(p *Plan) bool { ok := p.Cfg.PostYields; p.Cfg.PostYields = false; return ok },
 			func(p *Plan) bool { ok := p.Cfg.StallTask >= 0; p.Cfg.StallTask = -1; return ok },
 			func(p *Plan) bool {
 				ok := p.Cfg.GetFreshPermille+p.Cfg.PutDropPermille+p.Cfg.GetAnyPermille+p.Cfg.FlushPermille > 0
